@@ -71,6 +71,7 @@ struct Call {
 
 struct Fail {
   std::string msg, replay;
+  int64_t key[6]; // the input tuple, for simplest-first ordering of the merged failures
 };
 struct Local {
   uint64_t evals = 0, nontrivial = 0;
@@ -82,8 +83,11 @@ struct Local {
   std::vector<int> marks, tags;
   std::vector<int> vec; // element containers for for_each_n, rebuilt only when n changes (f never modifies them)
   std::list<int> lst;
-  void fail(const std::string& msg, const std::string& replay) {
-    if (fails.size() < 5) fails.push_back({msg, replay});
+  void fail(const std::string& msg, const std::string& replay, const int64_t (&key)[6]) {
+    if (fails.size() >= 5) return;
+    Fail f{msg, replay, {0, 0, 0, 0, 0, 0}};
+    for (int i = 0; i < 6; i++) f.key[i] = key[i];
+    fails.push_back(f);
   }
 };
 
@@ -391,7 +395,11 @@ static inline void exec(Local& L, const Case& k, bool nontrivial) {
   std::string e = run_case(L, k);
   L.evals++;
   if (nontrivial) L.nontrivial++;
-  if (!e.empty()) L.fail(k.text() + ": " + e, k.text());
+  if (!e.empty()) {
+    // simplest-first key: magnitude of the size-like parameters first
+    int64_t key[6] = {k.kind == "pfs" || k.kind == "pf" ? k.b - k.a : k.a, k.kind == "pfs" || k.kind == "pf" ? k.c : k.b, k.c, k.d, k.e, k.f};
+    L.fail(k.text() + ": " + e, k.text(), key);
+  }
 }
 
 static Case mk(const char* kind, int type, int64_t a, int64_t b, int64_t c = 0, int64_t d = 0, int64_t e = 0, int64_t f = 0) {
@@ -421,11 +429,17 @@ static void merge(seq::Report& rep, std::vector<Local>& locals, uint64_t& nontri
   if (getenv("SEQ_TIMING"))
     fprintf(stderr, "[c17] after parallel phase %d: %.2f s\n", ++phase,
             std::chrono::duration<double>(std::chrono::steady_clock::now() - rep.t0).count());
+  std::vector<Fail> all;
   for (auto& l : locals) {
     rep.evaluations += l.evals;
     nontrivial += l.nontrivial;
-    for (auto& f : l.fails) rep.violation(f.msg, f.replay);
+    for (auto& f : l.fails) all.push_back(f);
   }
+  // each thread reports its first failures in enumeration order; order the union simplest-first (deterministic)
+  std::stable_sort(all.begin(), all.end(), [](const Fail& x, const Fail& y) {
+    return std::lexicographical_compare(x.key, x.key + 6, y.key, y.key + 6);
+  });
+  for (auto& f : all) rep.violation(f.msg, f.replay);
 }
 
 static int do_replay(const char* path) {
@@ -568,6 +582,7 @@ int main(int argc, char** argv) {
   seq::Report rep;
   g_rep = &rep;
   rep.name = "c17_chunking";
+  rep.max_violations = 12; // up to 5 families of process deaths on the frontier + room for oracle violations
   rep.rule =
       "a case is one input tuple, each enumerated once; non-trivial = at least 2 items and at least 2 chunks/threads "
       "requested (a real split happens)";
@@ -583,8 +598,25 @@ int main(int argc, char** argv) {
   // Runs in forked children (see on_death above); must come before any thread is started.
   const int C_chunks = 130 * X, C_k = 512 * X, C_g = 17 * X, C_j = 64 * X, C_gc = 70 * X;
   {
-    const int64_t n1 = (int64_t)C_chunks * (C_k + 1), n2 = (int64_t)(C_g - 1) * (C_j + 1) * C_gc, total = n1 + n2;
+    // part 3: 32-bit ranges wider than INT32_MAX (the chunk offsets no longer fit the index type; for the 8-bit types
+    //         of phase D integer promotion hides this): [min + i*2^29, max - j*2^29], i,j in 0..2, int32_t and uint32_t,
+    //         threads 1..8, wait 0/1, direct (pfs) and public (pf) entry
+    const int64_t n1 = (int64_t)C_chunks * (C_k + 1), n2 = (int64_t)(C_g - 1) * (C_j + 1) * C_gc, n3 = 2 * 9 * 8 * 2 * 2,
+                  total = n1 + n2 + n3;
     auto caseC = [&](int64_t i, bool& nt) {
+      if (i >= n1 + n2) {
+        i -= n1 + n2;
+        int kind = (int)(i % 2), w = (int)((i / 2) % 2), T = (int)((i / 4) % 8) + 1, r = (int)((i / 32) % 9), ty = (int)(i / 288);
+        int64_t step = 1ll << 29;
+        int64_t mn = ty ? 0 : (int64_t)INT32_MIN, mx = ty ? (int64_t)UINT32_MAX : (int64_t)INT32_MAX;
+        int64_t sb = mn + (r / 3) * step, eb = mx - (r % 3) * step;
+        if (ty) { // carried as the bit pattern of the 32-bit value, sign-extended like every other case
+          sb = (int64_t)(uint32_t)sb;
+          eb = (int64_t)(uint32_t)eb;
+        }
+        nt = T >= 2;
+        return kind ? mk("pf", ty ? U32 : I32, sb, eb, T - 1, w, 0x7fffffff, 1) : mk("pfs", ty ? U32 : I32, sb, eb, T, w, -1, 1);
+      }
       if (i < n1) {
         int chunks = (int)(i / (C_k + 1)) + 1, k = chunks - 1 + (int)(i % (C_k + 1));
         nt = chunks >= 2;
@@ -611,7 +643,7 @@ int main(int argc, char** argv) {
     }
     memset((void*)sh, 0, sizeof(Shared));
     int64_t from = 0;
-    int deaths = 0;
+    int deaths = 0, deaths_scs_edge = 0, deaths_scs_other = 0, deaths_gran = 0, deaths_wide_i32 = 0, deaths_wide_u32 = 0;
     while (from < total) {
       fflush(stdout);
       fflush(stderr);
@@ -654,7 +686,12 @@ int main(int argc, char** argv) {
       deaths++;
       rep.evaluations++; // the dying case was executed too
       if (nt) nontrivial++;
-      rep.violation("process killed by a sanitizer report or signal (undefined behaviour, see stderr) while executing: " + k.text(), k.text());
+      int& fam = k.kind == "scs" ? ((i128)k.a + k.b - 1 == (i128)SMAX ? deaths_scs_edge : deaths_scs_other)
+          : k.kind == "gran"     ? deaths_gran
+          : k.type == I32        ? deaths_wide_i32
+                                 : deaths_wide_u32;
+      if (++fam <= 1) // one recorded per family so that every family shows up among the (capped) violations
+        rep.violation("process killed by a sanitizer report or signal (undefined behaviour, see stderr) while executing: " + k.text(), k.text());
       from = sh->cur + 1;
     }
     rep.evaluations += sh->evals;
@@ -663,7 +700,10 @@ int main(int argc, char** argv) {
     if (getenv("SEQ_TIMING"))
       fprintf(stderr, "[c17] frontier (forked) done: %.2f s, %d deaths\n",
               std::chrono::duration<double>(std::chrono::steady_clock::now() - rep.t0).count(), deaths);
-    if (deaths) rep.sample(seq::fmt("{\"kind\":\"frontier\",\"cases_that_killed_the_process\":%d}", deaths));
+    if (deaths)
+      rep.sample(seq::fmt("{\"kind\":\"frontier\",\"cases_that_killed_the_process\":%d,\"staticChunkSize_with_items+chunks-1==SSIZE_MAX\":%d,"
+                          "\"staticChunkSize_other\":%d,\"granular\":%d,\"wide_int32_ranges\":%d,\"wide_uint32_ranges\":%d}",
+                          deaths, deaths_scs_edge, deaths_scs_other, deaths_gran, deaths_wide_i32, deaths_wide_u32));
     munmap((void*)sh, sizeof(Shared));
   }
   rep.sample(seq::fmt("{\"kind\":\"scs\",\"items\":%lld,\"chunks\":64}", (long long)(SMAX - 63)));
@@ -739,6 +779,8 @@ int main(int argc, char** argv) {
       std::to_string(B_chunks) + "; C overflow frontier: items=SSIZE_MAX-k for chunks 1.." + std::to_string(C_chunks) +
       ", k from chunks-1 (items+chunks-1==SSIZE_MAX) to chunks-1+" + std::to_string(C_k) + ", and granular items=(SSIZE_MAX/g-j)*g, g 2.." +
       std::to_string(C_g) + ", j 0.." + std::to_string(C_j) + ", chunks 1.." + std::to_string(C_gc) +
+      ", and int32/uint32 ranges wider than INT32_MAX [min+i*2^29,max-j*2^29], i,j 0..2, threads 1..8, wait 0/1, direct and public entry "
+      "(C runs in forked children so that a sanitizer abort is recorded and the enumeration continues)"
       "; D parallel_for_staticImpl/StaticChunkMapper<uint8_t|int8_t>: every range start<end, every thread count 1..size+1, wait 0/1, "
       "g=1 and every g in 2..17 dividing the size (thread counts 1..size/g+1), plus caller ring index 0..T for ranges starting at the type "
       "minimum (T<=41); public parallel_for on every 8-bit Static range (incl. empty): pool threads 0..min(size," +
